@@ -130,8 +130,8 @@ func c17GenManifest(r *rand.Rand, malformed bool) c17Doc {
 		case 2:
 			d.m["kind"] = "Pod"
 			d.kindOK, d.loadOK = false, false
-		case 3:
-			d.m[d.bk] = map[string]any{"bad": 1}
+		case 3: // a binary item that is not a string: a number, a null, a list, a map, a bool
+			d.m[d.bk] = map[string]any{"bad": []any{1, nil, []any{1}, map[string]any{"x": 1}, true, 1.5}[r.Intn(6)]}
 			d.loadOK = false
 		case 4:
 			d.m[d.bk] = map[string]any{"bad": "!!!not base64"}
@@ -226,6 +226,18 @@ func c17Save(r *rand.Rand) Case {
 	}
 	var fail []string
 	ws, wb := itemsOf(m)
+	// manifests are independent of each other: one of the OTHER kind (and one of the same kind), loaded
+	// and written while this one is open, must not change where this one's items go
+	if r.Intn(2) == 0 {
+		for _, ok := range []string{"Secret", "ConfigMap"} {
+			if om, oerr := k8s.ManifestFromBytes([]byte("kind: " + ok + "\napiVersion: v1\nmetadata:\n  name: other\n")); oerr == nil {
+				om.StringData().Update("o.txt", "other")
+				om.BinaryData().Update("o.bin", []byte{1, 2})
+				var ob bytes.Buffer
+				_, _ = om.WriteTo(&ob)
+			}
+		}
+	}
 	var ops, descs []string
 	hostile := false
 	for i, n := 0, r.Intn(7); i < n; i++ {
@@ -322,6 +334,11 @@ func c17Save(r *rand.Rand) Case {
 }
 
 // embedded documents: open, edit, save, reopen
+var (
+	c17SharedDec = k8s.DecodeEmbeddedProps()
+	c17SharedEnc = k8s.EncodeEmbeddedProps()
+)
+
 func c17Embedded(r *rand.Rand, idx int, format int) Case {
 	dir := filepath.Join(os.TempDir(), "ytcheck-c17")
 	_ = os.MkdirAll(dir, 0o755)
@@ -353,6 +370,11 @@ func c17Embedded(r *rand.Rand, idx int, format int) Case {
 		// properties: every string item of the manifest is a key of the embedded document
 		init["data"] = map[string]any{"app.name": "n", "app.port": "80", "db.host": "h"}
 		openFn = func() (k8s.Document, error) { return k8s.Properties(file) }
+		if r.Intn(2) == 0 { // one decoder/encoder pair serving every manifest this process opens
+			openFn = func() (k8s.Document, error) {
+				return k8s.NewBuilder().Manifest(file).Decoder(c17SharedDec).Encoder(c17SharedEnc).Open()
+			}
+		}
 	}
 	var ib bytes.Buffer
 	_ = utils.NewYamlEncoder(&ib).Encode(init)
@@ -368,6 +390,12 @@ func c17Embedded(r *rand.Rand, idx int, format int) Case {
 			return
 		}
 		cb := doc.Document()
+		if format == 2 {
+			// what was opened is this manifest's items and nothing else (nothing left over from another manifest)
+			if got := nodeToAny(cb); !reflect.DeepEqual(got, any(map[string]any{"app": map[string]any{"name": "n", "port": "80"}, "db": map[string]any{"host": "h"}})) {
+				fail = append(fail, fmt.Sprintf("the properties document opened from the manifest is not the tree of its items: %v", got))
+			}
+		}
 		for i, n := 0, 1+r.Intn(6); i < n; i++ {
 			if format == 2 {
 				// incl. a leaf replaced by a subtree (app.port.http over app.port) and a subtree by a leaf (db, app)
@@ -440,6 +468,40 @@ func c17Embedded(r *rand.Rand, idx int, format int) Case {
 		Key: fmt.Sprint(format, start, edits)}
 }
 
+// hostile manifests: loading (directly and through the embedded-document openers) returns an error
+// or a manifest; it never panics
+func c17NoPanic(text string) Case {
+	var fail []string
+	var err error
+	if pn := guard(func() { _, err = k8s.ManifestFromBytes([]byte(text)) }); pn != "" {
+		fail = append(fail, "panic in ManifestFromBytes: "+pn)
+	}
+	dir := filepath.Join(os.TempDir(), "ytcheck-c17")
+	_ = os.MkdirAll(dir, 0o755)
+	file := filepath.Join(dir, fmt.Sprintf("hostile-%x.yaml", len(text)*131+int(crc(text))))
+	defer os.Remove(file)
+	if werr := os.WriteFile(file, []byte(text), 0o644); werr == nil {
+		for name, open := range map[string]func() (k8s.Document, error){
+			"Properties": func() (k8s.Document, error) { return k8s.Properties(file) },
+			"YamlDoc":    func() (k8s.Document, error) { return k8s.YamlDoc(file, "item") },
+			"JsonDoc":    func() (k8s.Document, error) { return k8s.JsonDoc(file, "item") },
+		} {
+			if pn := guard(func() { _, _ = open() }); pn != "" {
+				fail = append(fail, "panic in k8s."+name+": "+pn)
+			}
+		}
+	}
+	return Case{Kind: "load-hostile", Desc: map[string]any{"text": text, "error": err != nil}, Fail: fail, Nontrivial: true, Key: "nopanic" + text}
+}
+
+func crc(s string) uint32 {
+	var h uint32 = 2166136261
+	for i := 0; i < len(s); i++ {
+		h = (h ^ uint32(s[i])) * 16777619
+	}
+	return h
+}
+
 // the recorded finding, exercised on every run
 func c17Hostile(v string) Case {
 	text := []byte("kind: ConfigMap\napiVersion: v1\nmetadata:\n  name: x\ndata:\n  a.txt: ok\n")
@@ -472,9 +534,23 @@ func init() {
 	register(&Prop{
 		ID: "C17",
 		Corpus: func() []Case {
-			return []Case{c17Hostile("\nleading newline"), c17Hostile("\t\nx"), c17Hostile("plain\nmulti")}
+			cs := []Case{c17Hostile("\nleading newline"), c17Hostile("\t\nx"), c17Hostile("plain\nmulti")}
+			// every kind of non-string value in either section of either kind: an error or a manifest, never a panic;
+			// the same through the embedded-document openers
+			for _, kind := range []string{"Secret", "ConfigMap"} {
+				for _, sec := range []string{"data", "stringData", "binaryData"} {
+					for _, v := range []string{"~", "null", "", "1", "1.5", "true", "[1, 2]", "{a: 1}", "[]", "{}", "2001-12-14", "!!binary aGk="} {
+						cs = append(cs, c17NoPanic("kind: "+kind+"\napiVersion: v1\nmetadata:\n  name: x\n"+sec+":\n  item: "+v+"\n  ok: aGk=\n"))
+					}
+					cs = append(cs, c17NoPanic("kind: "+kind+"\napiVersion: v1\n"+sec+": ~\n"), c17NoPanic("kind: "+kind+"\n"+sec+": [1]\n"))
+				}
+			}
+			for _, t := range []string{"", "~", "[]", "kind: ~\n", "kind: [Secret]\n", "kind: {a: 1}\n", "- kind: Secret\n", "kind: Secret\nmetadata: 5\n"} {
+				cs = append(cs, c17NoPanic(t))
+			}
+			return cs
 		},
-		Rule: "kinds: load (Secret/ConfigMap manifests with metadata/extra fields, text items incl. multi-line/unicode/numeric-looking/empty, binary items of 0-17 arbitrary bytes; 1/4 malformed: missing or non-string or unsupported kind, non-string or non-base64 binary value, section that is not a map: error or manifest, never a panic), save (load, 0-6 Update/Remove on both facades, WriteTo, control decode + reload: item maps, non-data fields, section placement and base64), embedded-0/1/2 (YAML / JSON / properties document inside a ConfigMap on a temp file: 1-6 edits, Save, reopen, other items untouched), b64-enc / b64-dec (Go StdEncoding vs the Coq model on edge lengths and corrupted inputs). Non-trivial: manifest has both sections and extra fields / >= 2 edits. Distinct by Gallina term or (format,start,edits).",
+		Rule: "kinds: load (Secret/ConfigMap manifests with metadata/extra fields, text items incl. multi-line/unicode/numeric-looking/empty, binary items of 0-17 arbitrary bytes; 1/4 malformed: missing or non-string or unsupported kind, non-string or non-base64 binary value, section that is not a map: error or manifest, never a panic; plus a fixed corpus of 122 hostile manifests — every kind of non-string value in every section of both kinds, non-map sections, odd kinds — through ManifestFromBytes, Properties, YamlDoc and JsonDoc), save (load, with manifests of both kinds loaded and written in between, 0-6 Update/Remove on both facades, WriteTo, control decode + reload: item maps, non-data fields, section placement and base64), embedded-0/1/2 (YAML / JSON / properties document inside a ConfigMap on a temp file: 1-6 edits, Save, reopen, other items untouched), b64-enc / b64-dec (Go StdEncoding vs the Coq model on edge lengths and corrupted inputs). Non-trivial: manifest has both sections and extra fields / >= 2 edits. Distinct by Gallina term or (format,start,edits).",
 		Gen: func(r *rand.Rand, tier string, idx int) Case {
 			switch idx % 8 {
 			case 0:
